@@ -3,14 +3,14 @@ SPECIFICATION Spec
 CONSTANTS
   GRIDS <- QuickMcGrids
   SGRIDS <- McSolveGrids
-  AGRIDS <- TinyGrids
+  AGRIDS <- QuickAllocGrids
   KMAX = 3
   DEN = 2
   OCCVALS = {0, 1, 2}
   FNUM = 100
   FDEN = 1
   RATIO = 2
-  MODES = {"gen", "enc", "solve"}
+  MODES = {"gen", "enc", "solve", "alloc"}
   BORDER = "grid"
   UNIT = 1
   EMIT = FALSE
@@ -25,6 +25,8 @@ INVARIANT LoopOptimal
 INVARIANT TableIsObj
 INVARIANT FastIsTable
 INVARIANT LoopNoShapes
+INVARIANT FrontEndOK
+INVARIANT EndToEndExact
 PROPERTY BoundGrows
 PROPERTY StrictlyGrows
 CHECK_DEADLOCK FALSE
